@@ -775,6 +775,32 @@ class C15(PropBase):
         want_assert = [dec(a[0]) for d, a in st if d == "assert"]
         if (doc.get("crash_info") or {}).get("assertion") != (want_assert[-1] if want_assert else None):
             return "crash_info.assertion = %r, the state's assertion is %r" % ((doc.get("crash_info") or {}).get("assertion"), want_assert[-1:] or None)
+        # inline frames keep the order of the state (innermost first, as the symbolizer pushed them): an inline frame the state got
+        # LAST (directive `inl`) is the last element of that frame's "inlines"; with several directives for one frame, in directive order
+        pushed = {}
+        for d, a in st:
+            if d == "inl":
+                pushed.setdefault((int(a[0]), int(a[1])), []).append((dec(a[2]), None if a[3] == "-" else dec(a[3]), None if a[4] == "-" else int(a[4])))
+        for (ti, fi), want in pushed.items():
+            ths = doc.get("threads") or []
+            if ti >= len(ths) or fi >= len(ths[ti].get("frames") or []):
+                continue
+            inl = ths[ti]["frames"][fi].get("inlines") or []
+            got = [(x.get("function"), x.get("file"), x.get("line")) for x in inl[-len(want):]]
+            if got != want:
+                return "threads[%d].frames[%d].inlines ends with %r, the state's innermost-first list ends with %r" % (ti, fi, got, want)
+        # lsb_release: each member is the value of its own key of the dump's lsb-release text (quotes removed)
+        if "LSB" in xt and xt[xt.index("LSB") + 1] != "-" and doc.get("lsb_release") is not None:
+            kv = {}
+            for ln in dec(xt[xt.index("LSB") + 1]).split("\n"):
+                if "=" in ln:
+                    k_, v_ = ln.split("=", 1)
+                    kv[k_.strip(" ")] = v_
+            unq = lambda t: t[1:-1] if t is not None and len(t) >= 2 and t[0] == t[-1] == '"' else t
+            for key, src in (("id", "DISTRIB_ID"), ("release", "DISTRIB_RELEASE"), ("codename", "DISTRIB_CODENAME"), ("description", "DISTRIB_DESCRIPTION")):
+                got = doc["lsb_release"].get(key)
+                if src in kv and got is not None and unq(got) != unq(kv[src]) and got.strip(" \t") != unq(kv[src].strip(" \t")):
+                    return "lsb_release.%s = %r, the dump's lsb-release text has %s=%s" % (key, got, src, kv[src])
         return None
 
     # how many reports had each (optional) member present and non-null / non-empty — makes generator gaps visible
